@@ -42,6 +42,10 @@ def dist(d):
         return ("duniform", int(d[1]), int(d[2]))
     if d[0] == "finite":
         return ("finite", [(sc(x), sc(p)) for x, p in d[1]])
+    if d[0] in ("normal", "laplace"):
+        return (d[0], poly(d[1]), sc(d[2]))
+    if d[0] == "uniform":
+        return ("uniform", poly(d[1]), poly(d[2]))
     raise ValueError(d[0])
 
 
@@ -161,10 +165,27 @@ def _pmul(p, q):
 
 
 def prog_cont(P, order=5):
-    """exported program with normal / uniform / laplace draws -> abstract program in which every such draw is
-    v = location + scale * c  for a fresh finitely supported c (see surrogate).  Sound for expectations of monomials
-    of total degree <= 5 provided every variable is affine in the continuous draws and no condition reads them;
-    raises NotAffine otherwise."""
+    """exported program with normal / uniform / laplace draws -> abstract program with surrogate draws"""
+    return surrogate_program(prog(P), order)
+
+
+def has_cont(P):
+    def w(ss):
+        for s in ss:
+            if s[0] == "draw" and s[2][0] in ("normal", "uniform", "laplace"):
+                return True
+            if s[0] == "if" and (any(w(b) for b in s[2]) or w(s[3])):
+                return True
+            if s[0] == "simul" and w(s[1]):
+                return True
+        return False
+    return w(P["init"]) or w(P["body"])
+
+
+def surrogate_program(A, order=5):
+    """abstract program in which every normal / uniform / laplace draw is replaced by  v = location + scale * c  for a
+    fresh finitely supported c (see surrogate).  Sound for expectations of monomials of total degree <= order provided
+    every variable is affine in the continuous draws and no condition reads them; raises NotAffine otherwise."""
     counter = [0]
     aux = []
 
@@ -176,29 +197,33 @@ def prog_cont(P, order=5):
                 c = f"_c{counter[0]}"
                 aux.append(c)
                 d = s[2]
+                one = [(Fraction(1), ())]
                 if d[0] == "normal":
-                    law, loc, sc = surrogate("normal", sc_(d[2]), order), poly(d[1]), [(Fraction(1), ())]
+                    law, loc, scl = surrogate("normal", Fraction(d[2]), order), list(d[1]), one
                 elif d[0] == "laplace":
-                    law, loc, sc = surrogate("laplace", sc_(d[2]), order), poly(d[1]), [(Fraction(1), ())]
+                    law, loc, scl = surrogate("laplace", Fraction(d[2]), order), list(d[1]), one
                 else:
-                    a, b = poly(d[1]), poly(d[2])
-                    law, loc, sc = surrogate("uniform", None, order), a, b + [(-c0, m) for c0, m in a]
+                    law, loc, scl = surrogate("uniform", None, order), list(d[1]), list(d[2]) + [(-c0, m) for c0, m in d[1]]
                 out.append(("draw", c, ("finite", law), ("true",), c))
-                out.append(("assign", s[1], [(Fraction(1), loc + _pmul(sc, [(Fraction(1), ((c, 1),))]))], cond(s[3]), s[4]))
+                out.append(("assign", s[1], [(Fraction(1), _pnorm(loc + _pmul(scl, [(Fraction(1), ((c, 1),))])))], s[3], s[4]))
             elif s[0] == "if":
-                out.append(("if", [cond(c) for c in s[1]], [conv(b) for b in s[2]], conv(s[3])))
+                out.append(("if", list(s[1]), [conv(b) for b in s[2]], conv(s[3])))
             else:
-                out += stmts([s])
+                out.append(s)
         return out
-
-    def sc_(x):
-        return Fraction(x) if not isinstance(x, list) else Fraction(x[0])
-    Q = {"vars": list(P["vars"]), "s0": {k: sc(v) for k, v in P["s0"].items()},
-         "init": conv(P["init"]), "guard": cond(P["guard"]), "body": conv(P["body"])}
+    Q = {"vars": list(A["vars"]), "s0": dict(A["s0"]), "init": conv(A["init"]), "guard": A["guard"], "body": conv(A["body"])}
     Q["vars"] += aux
     _check_affine(Q, set(aux))
     Q["order"] = 5 if order > 3 else 3
     return Q
+
+
+def _pnorm(p):
+    out = {}
+    for c, m in p:
+        key = tuple(sorted(m))
+        out[key] = out.get(key, 0) + c
+    return [(c, m) for m, c in out.items() if c != 0]
 
 
 def _check_affine(Q, aux):
@@ -241,7 +266,9 @@ def _check_affine(Q, aux):
             elif s[0] == "func":
                 raise NotAffine("functional assignment")
             elif s[0] == "simul":
-                raise NotAffine("simultaneous assignment")
+                changed |= walk([it for it in s[1] if it[0] == "assign"])
+                if any(it[0] != "assign" for it in s[1]):
+                    raise NotAffine("draw inside a simultaneous assignment")
         return changed
     for _ in range(len(Q["vars"]) + 2):
         a = walk(Q["init"])
